@@ -335,4 +335,40 @@ theorem ha_continue (div : Nat → Rat) (hd : (∀ k, 0 < div k) ∧ StrictMono 
   have := sum_lt_of_le_of_lt L a f (fun c' _ => hA c') c hcL hlt
   omega
 
+theorem two_le_sum (L : List Cand) (hL : L.Nodup) (f : Cand → Nat) (a b : Cand) (ha : a ∈ L) (hb : b ∈ L) (hab : a ≠ b) :
+    f a + f b ≤ (L.map f).sum := by
+  induction L with
+  | nil => simp at ha
+  | cons x xs ih =>
+    rw [List.nodup_cons] at hL
+    simp only [List.map_cons, List.sum_cons]
+    rcases List.mem_cons.mp ha with rfl | ha'
+    · rcases List.mem_cons.mp hb with rfl | hb'
+      · exact absurd rfl hab
+      · have : f b ≤ (xs.map f).sum := List.single_le_sum (by simp) _ (List.mem_map.mpr ⟨b, hb', rfl⟩)
+        omega
+    · rcases List.mem_cons.mp hb with rfl | hb'
+      · have : f a ≤ (xs.map f).sum := List.single_le_sum (by simp) _ (List.mem_map.mpr ⟨a, ha', rfl⟩)
+        omega
+      · have := ih hL.2 ha' hb'
+        omega
+
+
+theorem haEval_ok (div : Nat → Rat) (votes : Votes) (n : Nat) (prev : Seats) (r : Dist)
+    (h : haEval div votes n prev [] = .ok r) :
+    r = normDist (haResult (cfgP div votes n prev)) ∧ (haInit (cfgP div votes n prev)).pool ≠ [] := by
+  unfold haEval highestAverages at h
+  split at h
+  · simp [Except.map] at h
+  · rename_i hpool
+    simp only [Except.map, Except.ok.injEq] at h
+    exact ⟨h.symm, hpool⟩
+
+theorem distHas_lowestAllowed (prop : Dist) (prev : Seats) (k : Key) :
+    distHas (lowestAllowed prop prev) k = distHas prop k := by
+  unfold distHas lowestAllowed
+  rw [List.any_map]
+  rfl
+
+
 end VL.OH
